@@ -872,6 +872,8 @@ func main() {
 	// own random stream: the families below were added in round 8 and must not shift the draws of the older ones
 	// (the forced overlaps find some seeded changes only in particular rounds)
 	r8 := rand.New(rand.NewSource(int64(f.Seed)*7919 + 8))
+	rn.nsFamily(ic, r8, 3, f.N(300, 6000))
+	rn.flush()
 	rn.resourceOptionFamily(tie, r8, f.N(3, 4), f.N(300, 6000))
 	rn.clockRangeFamily(tie, r8, f.N(400, 8000))
 	rn.flush()
